@@ -489,3 +489,21 @@ Definition inverse_ok (o : opts) (t : dir) (f : rpath) : bool :=
   | Ok (m, b) => match find_module o t [b] m with Found g => rel_ok o f g | NotFound => false end
   | Err _ => true
   end.
+(* the path names a .py / .pyi entry *)
+Definition py_path (f : rpath) : bool := match f with (_, e) :: _ => is_py e | [] => false end.
+
+(* no module file n.py[i] beside a directory n (the pattern on which `mypy DIR` leaves the file out) *)
+Definition shadowed_by_file (es : dir) (n : nm) : bool :=
+  existsb (fun en' => match snd en' with
+                      | File => is_py (snd (fst en')) && nm_eqb (fst (fst en')) n
+                      | Dir _ => false
+                      end) es.
+Fixpoint no_shadow_node (n : node) : bool :=
+  match n with
+  | File => true
+  | Dir es => forallb (fun en => match snd en with
+                                 | Dir _ => negb (shadowed_by_file es (fst (fst en))) && no_shadow_node (snd en)
+                                 | File => true
+                                 end) es
+  end.
+Definition no_shadow (t : dir) : bool := no_shadow_node (Dir t).
